@@ -2,7 +2,7 @@
 # tools/screen_seed.sh <Cxx> [check ids...] : pre-screen a seeded change in its scratch worktree /tmp/wt/<Cxx>
 # (the change is applied there) without touching /repo: VERIF_REPO selects the tree under test.
 ID="$1"; shift; CH="$@"; [ -z "$CH" ] && CH="$ID"
-WT=/tmp/wt/$ID
+WT=${WT_BASE:-/tmp/wt}/$ID
 ( cd $WT && git diff --stat -- asyncfix | tail -1; /venv/bin/python -m pytest -q -p no:cacheprovider 2>&1 | tail -1 )
 for c in $CH; do
   ( cd /verif && VERIF_REPO=$WT timeout 3000 ./check "$c" --tier quick 2>&1 | grep "VIOLATION\|done rc\|MACHINERY\|clause \|KNOWN" | cut -c1-300 )
